@@ -99,7 +99,7 @@ def run_history(res, exe, rng, first, matrix_case=None):
     if matrix_case is not None:
         ne = 3
         entries = [(5, 20), (7, 0), (9, 50)]
-    cfg = Config(nodeid=nid, freq=freq, tmrnum=16)
+    cfg = Config(nodeid=nid, freq=freq, tmrnum=rng.choice([ne, ne, 16]))           # ne: exactly one timer per consumer entry, none to spare
     gen.add_mandatory(cfg, hb=0, ssdo=1, ssdo_rw=False)
     gen.add_hbcons(cfg, entries)
     sim = S.Sim(exe, cfg)
